@@ -77,10 +77,20 @@ def make_calc_for(m, points, bc, dims=False, edited=False):
     into the same data points (same list, same length) and uses the same calculator again: the drag the solver uses is
     that of the table the shot carries NOW"""
     first = [(a, b + 0.05) for a, b in points] if edited else points
-    if dims:
-        dm = m.DragModel(bc, [{"Mach": a, "CD": b} for a, b in first], m.Unit.Grain(168), m.Unit.Inch(0.308), m.Unit.Inch(1.2))
+    # a table entry is a dict with the keys 'Mach' and 'CD' - in whichever order (sorted-key JSON lists CD first), and
+    # every third table is handed over as DragDataPoint objects
+    _LONG_USED["n"] = _LONG_USED.get("n", 0) + 1
+    spell = _LONG_USED["n"] % 3
+    if spell == 0:
+        tab = [{"Mach": a, "CD": b} for a, b in first]
+    elif spell == 1:
+        tab = [{"CD": b, "Mach": a} for a, b in first]
     else:
-        dm = m.DragModel(bc, [{"Mach": a, "CD": b} for a, b in first])
+        tab = [m.DragDataPoint(a, b) for a, b in first]
+    if dims:
+        dm = m.DragModel(bc, tab, m.Unit.Grain(168), m.Unit.Inch(0.308), m.Unit.Inch(1.2))
+    else:
+        dm = m.DragModel(bc, tab)
     shot = m.Shot(weapon=m.Weapon(), ammo=m.Ammo(dm, m.Unit.FPS(2500)))
     if not edited:
         calc = m.Calculator()
@@ -164,7 +174,13 @@ def real_traces(chk, rng, n_custom):
     for ti, (name, pts, shipped) in enumerate(tabs):
         bc = rng.choice([0.2, 0.5, 1.0, 0.365])
         edited = (not shipped) and ti % 3 == 0
-        tc = make_calc_for(m, pts, bc, dims=bool(ti % 2), edited=edited)      # every other model carries weight / diameter / length
+        otc = impl.outcome(make_calc_for, m, pts, bc, dims=bool(ti % 2), edited=edited)      # every other model carries weight / diameter / length
+        if otc[0] != "ok":
+            # a legal table (>= 3 strictly ascending Mach points, positive Cd) that the library cannot build a solver for
+            chk.violation("C09.LegalTableUnusable", {"source": "real-table", "table": name if shipped else "custom"},
+                          {"table": name, "points": pts[:6], "exc": otc[1], "text": str(otc[2])[:200]})
+            continue
+        tc = otc[1]
         if edited:
             chk.stratum("real_table_edited_in_place_on_a_long_used_calculator")
         fpts = [(Fraction(a), Fraction(b)) for a, b in pts]
@@ -172,7 +188,12 @@ def real_traces(chk, rng, n_custom):
         n = len(pts)
         for x in table_queries(rng, mach):
             tid += 1
-            v = tc.drag_by_mach(x)
+            ov = impl.outcome(tc.drag_by_mach, x)
+            if ov[0] != "ok":
+                chk.violation("C09.LegalTableUnusable", {"source": "real-table", "table": name if shipped else "custom"},
+                              {"table": name, "mach": x, "exc": ov[1]})
+                continue
+            v = ov[1]
             cd = v * bc / 2.08551e-04           # undo the library's own constant to find the piece
             # cells: 1-based cell i means node i <= x <= node i+1; an ulp band puts near-node queries in both cells
             cells = []
